@@ -1,3 +1,73 @@
+import BU.Py
+import BU.Gen.Tables
+import BU.Spec.Base58
+import BU.Spec.CurveLaws
 import BU.Model.Keys
+import BU.Proofs.Base58Lemmas
+/-!
+# C09 — private/public key encodings (WIF, SEC, x-only) round-trip and match the curve
+
+M: `Model.fromWif`, `toWif`, `privInit`, `pubOfPriv`, `pubFromBytes`, `pubToBytes`, `pubXOnly`.
+Third-party code enters as what it is specified to compute (Base58 = `Spec.B58`, key constructors =
+range / on-curve checks, `d·G` = `Secp.mul G d`, sympy `sqrt_mod` = all square roots).
+-/
 namespace C09
+open Py Spec Model Secp
+
+/-- **T-tie**: every network has a one-byte WIF version prefix (0x80 mainnet, 0xef otherwise) -/
+theorem wif_prefixes : ∀ e ∈ Gen.NETWORK_WIF_PREFIXES, e.2.length = 1 ∧
+    (e.1 = "mainnet" → e.2 = [0x80]) ∧ (e.1 ≠ "mainnet" → e.2 = [0xef]) := by
+  sorry
+
+/-- WIF export then import is the identity, compressed and uncompressed, for every secret in [1, n−1] and every
+one-byte network prefix -/
+theorem wif_roundtrip (dsha : Bytes → Bytes) (hd : ∀ x, (dsha x).length = 32) (pfx : Bytes) (hp : pfx.length = 1)
+    (d : Nat) (h1 : 1 ≤ d) (h2 : d < n) (c : Bool) :
+    fromWif dsha pfx (toWif dsha pfx d c) = .ok d := by
+  sorry
+
+/-- exported WIF is Base58Check(version ‖ 32-byte key ‖ [01 if compressed]) -/
+theorem wif_standard_form (dsha : Bytes → Bytes) (pfx : Bytes) (d : Nat) (c : Bool) :
+    toWif dsha pfx d c = B58.check dsha (pfx ++ beBytes 32 d ++ (if c then [0x01] else [])) := by
+  sorry
+
+/-- imports with a wrong checksum, another network's version byte, or characters outside the alphabet are rejected -/
+theorem wif_rejects (dsha : Bytes → Bytes) (pfx : Bytes) (w : String)
+    (h : B58.decode w = none ∨
+         (∃ data, B58.decode w = some data ∧
+            (last4 data ≠ (dsha (dropLast4 data)).take 4 ∨ (dropLast4 data).take 1 ≠ pfx))) :
+    ∃ e, fromWif dsha pfx w = .error e := by
+  sorry
+
+/-- building a key from an explicit secret either holds exactly that secret or fails; only the call without
+arguments generates a random key -/
+theorem explicit_secret (dsha : Bytes → Bytes) (pfx : Bytes) (w : Option String) (e : Option Int) (b : Option Bytes) :
+    (privInit dsha pfx w e b = .ok none ↔ (w = none ∧ e = none ∧ b = none)) ∧
+    (∀ k b', privInit dsha pfx none e (some b') = .ok (some k) → b' = beBytes 32 k ∧ 1 ≤ k ∧ k < n) ∧
+    (∀ k ev, privInit dsha pfx none (some ev) none = .ok (some k) → (k : Int) = ev ∧ 1 ≤ k ∧ k < n) := by
+  sorry
+
+/-- the public key of `d` is `d·G` -/
+theorem pub_is_dG (d : Nat) (P : Nat × Nat) : pubOfPriv d = .ok P ↔ mul G d = some P := by
+  sorry
+
+/-- standard forms: 02/03 ‖ x by parity of y, 04 ‖ x ‖ y, 32-byte x -/
+theorem sec_standard_form (P : Nat × Nat) :
+    pubToBytes P true = (if P.2 % 2 = 0 then 0x02 else 0x03) :: beBytes 32 P.1 ∧
+    pubToBytes P false = 0x04 :: (beBytes 32 P.1 ++ beBytes 32 P.2) ∧ pubXOnly P = beBytes 32 P.1 := by
+  sorry
+
+/-- parsing any of the three encodings of `d·G` returns the identical curve point (for x-only: its even-y
+representative), for both parities and for x coordinates with leading zero bytes -/
+theorem sec_roundtrip (laws : CurveLaws) (d : Nat) (hd : 1 ≤ d ∧ d < n) (x y : Nat) (hP : mul G d = some (x, y)) :
+    pubFromBytes (pubToBytes (x, y) true) = .ok (x, y) ∧
+    pubFromBytes (pubToBytes (x, y) false) = .ok (x, y) ∧
+    pubFromBytes (pubXOnly (x, y)) = .ok (x, if y % 2 = 0 then y else p - y) := by
+  sorry
+
+/-- encodings of x values that are not on the curve are rejected -/
+theorem offcurve_rejected (x : Nat) (hx : x < 2 ^ 256) (h : sqrtAll ((x ^ 3 + 7) % p) = []) (pre : UInt8) :
+    (∃ e, pubFromBytes (pre :: beBytes 32 x) = .error e) ∧ (∃ e, pubFromBytes (beBytes 32 x) = .error e) := by
+  sorry
+
 end C09
